@@ -1,7 +1,7 @@
 import CanvasProofs.Lemmas.C12
 /-!
 C12, PostScript: every `set*` of the PS state cache is simulated by the interpreter from the state the
-cache claims (with an arbitrary current path), `gsave fill grestore` restores it (since 45be182 the
+cache claims (with an arbitrary current path), `gsave fill grestore` restores it (since b63a583 the
 colour cache compares like with like and needs no hypothesis).
 -/
 namespace Canvas.C12
